@@ -23,12 +23,16 @@ func runC07(cfg *config) *Report {
 	}
 	var lines, dumps, built []string
 	for i := 0; i < n; i++ {
-		f, err := genFile(r, genOpts{maxCL: 1, maxBundles: 4, maxItems: 4, mutateP: 10})
+		mode := i % 6
+		maxItems := 4
+		if mode >= 4 {
+			maxItems = 11
+		}
+		f, err := genFile(r, genOpts{maxCL: 1, maxBundles: 4, maxItems: maxItems, mutateP: 10})
 		if err != nil {
 			continue
 		}
 		cl := &f.CashLetters[0]
-		mode := i % 4
 		supplied := map[*icl.Bundle][]string{}
 		nontrivial := false
 		for _, b := range cl.Bundles {
@@ -49,6 +53,17 @@ func runC07(cfg *config) *Report {
 						return ""
 					}
 					return strconv.Itoa(j)
+				case 4: // supplied zero-filled, eight and above (a leading zero must not change the base)
+					if r.Intn(4) == 0 {
+						return ""
+					}
+					next += 1 + r.Intn(9)
+					if r.Intn(2) == 0 {
+						return fmt.Sprintf("%015d", 7+next)
+					}
+					return fmt.Sprintf("%03d", 7+next)
+				case 5: // all supplied, unpadded, widths differ (9, 10, 11, ...): numeric and lexical order disagree
+					return strconv.Itoa(9 + j)
 				default: // scattered
 					if r.Intn(3) == 0 {
 						return ""
@@ -197,6 +212,14 @@ func runC07(cfg *config) *Report {
 				}
 			}
 		}
+		// building the already built cash letter again keeps every number (the first build stores them
+		// zero-filled)
+		firstSeqs := itemSeqs(cl)
+		if err2 := cl.Create(); err2 != nil {
+			rep.violate(Violation{Key: "C07:second-build-fails", What: "building a built cash letter again fails: " + err2.Error(), Replay: rp})
+		} else if again := itemSeqs(cl); again != firstSeqs {
+			rep.violate(Violation{Key: "C07:second-build-renumbers", What: "building a built cash letter again changes item sequence numbers: " + firstSeqs + " -> " + again, Replay: rp})
+		}
 		if i%97 == 0 {
 			rep.sample(map[string]any{"mode": mode, "census": census(before), "supplied": fmt.Sprint(supplied[cl.Bundles[0]])})
 		}
@@ -214,6 +237,21 @@ func runC07(cfg *config) *Report {
 		}
 	}
 	return rep
+}
+
+// itemSeqs lists the item sequence numbers of a cash letter in order
+func itemSeqs(cl *icl.CashLetter) string {
+	var out []string
+	for _, b := range cl.Bundles {
+		for _, cd := range b.Checks {
+			out = append(out, cd.EceInstitutionItemSequenceNumber)
+		}
+		for _, rd := range b.Returns {
+			out = append(out, rd.EceInstitutionItemSequenceNumber)
+		}
+		out = append(out, "|")
+	}
+	return strings.Join(out, ",")
 }
 
 func mustAtoi(s string) int { n, _ := atoiTrim(s); return n }
